@@ -57,6 +57,8 @@ RULES = [
     ('R1k', 'generic RNG parameter: R: Rng + SeedableRng -> R: Rng', re.compile(r'\bR: Rng \+ SeedableRng\b'), 'R: Rng'),
     ('R1b', 'Type<D> / Type<\'_, D> / Type<NodeCodec<D>> -> Type',
      re.compile(r'\b(Writer|Reader|Database|Node|Leaf|SplitPlaneNormal|FrozzenReader|ImmutableLeafs|ImmutableTrees|ImmutableSubsetLeafs|TmpNodes|QueryBuilder|ItemIter)<(?:\'\w+,\s*)?(?:D|ND|NodeCodec<D>)>'), r'\1'),
+    ('R1l', '(D|ND)::VectorCodec -> <(D|ND) as DistanceT>::VectorCodec (associated type of the uninterpreted metric; the unit defines the aliases D / ND)',
+     re.compile(r'\b(ND|D)::VectorCodec\b'), r'<\1 as DistanceT>::VectorCodec'),
     ('R1c', 'D::f(..) -> Dist::f(..)', re.compile(r'\bD::(?=[a-zA-Z_])'), 'Dist::'),
     ('R1j', 'Dist::DEFAULT_OVERSAMPLING -> Dist::default_oversampling_() (associated const of the uninterpreted metric)',
      re.compile(r'\bDist::DEFAULT_OVERSAMPLING\b'), 'Dist::default_oversampling_()'),
